@@ -107,6 +107,9 @@ func (m c16) Run(ctx *core.Ctx) {
 		case "sort":
 			cs.Config = []string{gen.Pick(r, []string{"sort:keys", "sort:param"})}
 			if r.IntN(2) == 0 {
+				cs.Config = append(cs.Config, "numeric") // WithSortQuery(1) / WithSortQuery(2), as documented
+			}
+			if r.IntN(2) == 0 {
 				cs.Input = core.S(gen.Pick(r, []string{"http://h/?", "a://h/?", "a:p?", "https://u:p@h:1/p?"}) + gen.QueryString(r) + gen.Pick(r, []string{"", "#f", "#"}))
 				cs.HasBase = false
 			} else if r.IntN(4) == 0 {
@@ -713,6 +716,7 @@ func c16SettersVsModel(ctx *core.Ctx, p url.Parser, conf *refmodel.Config, input
 	}
 	u := o.u
 	for i, op := range ops {
+		op = respellOp(op, mu.Ten())
 		if !obs.IsSetter(op.Name) {
 			continue
 		}
